@@ -87,6 +87,8 @@ func c09Opts(bits int) []larking.MuxOption {
 	if bits&2 != 0 {
 		o = append(o, larking.StatsOption(&statsProbe{}))
 	}
+	// a custom (non-stream) codec and a custom compressor are registered on every mux
+	o = append(o, customOpts()...)
 	return o
 }
 
@@ -166,6 +168,9 @@ func (e *c09Env) exec(tc *c09Case) (oracle, note string) {
 	default:
 		m = e.t[tc.Opts]
 		hs := hScript{RecvN: 4, Replies: []proto.Message{e.ts.newRsp("r", []byte{1}, 1), e.ts.newRsp("", nil, 0)}}
+		if strings.HasPrefix(tc.Path, "/ws/nobody/") {
+			hs.RecvN = 64 // a handler that keeps receiving: the stream has to end
+		}
 		if tc.ErrCode != 0 {
 			hs.Err = status.Error(codes.Code(tc.ErrCode), "e")
 			hs.ErrAfter = 1
@@ -197,6 +202,13 @@ func (e *c09Env) exec(tc *c09Case) (oracle, note string) {
 	}
 	if res.Reader != nil && res.Reader.PostEnd > 64 {
 		return "reads-after-end", fmt.Sprintf("%d reads after the input ended", res.Reader.PostEnd)
+	}
+	if strings.HasPrefix(tc.Path, "/ws/nobody/") && tc.Mux == "t" {
+		// nothing of the input is consumed by a body-less rule: at most one message (built from
+		// the URL) may be delivered, then the stream must end
+		if n := len(e.timpl[tc.Opts].log.Recv); n > 1 {
+			return "messages-without-input", fmt.Sprintf("the handler received %d messages from a body-less WebSocket rule (it stopped asking after %d): receiving never ends, no input is consumed", n, n)
+		}
 	}
 	if res.Rec.Hijacked {
 		if !res.Conn.Closed {
@@ -372,11 +384,11 @@ func c09Cases(ts *tSchema, thorough bool) []c09Case {
 		out = append(out, c09Case{Entry: "ws", Mux: "t", Verb: "GET", Path: "/ws/bidi", Query: q})
 	}
 	// G3 headers
-	cts := []string{"", "application/json", "application/protobuf", "application/octet-stream", "google.api.HttpBody", "text/plain", "application/grpc", "application/grpc+proto", "application/grpc+json", "application/grpc+body", "application/grpc+", "application/grpcx", "application/grpc-web", "application/grpc-web+body", "application/grpc-web+json", "application/grpc-web-text", "application/grpc-web-textx", "application/grpc-web-text+json", ";", "application/json; charset=utf-8", "APPLICATION/GRPC"}
-	accepts := []string{"", "application/json", "google.api.HttpBody", "*/*", "junk", ";q=", "a/b;q=1.5", ",", "application/protobuf;q=0"}
+	cts := []string{"", "application/json", "application/protobuf", "application/octet-stream", "google.api.HttpBody", "text/plain", "application/grpc", "application/grpc+proto", "application/grpc+json", "application/grpc+body", "application/grpc+", "application/grpcx", "application/grpc-web", "application/grpc-web+body", "application/grpc-web+json", "application/grpc-web-text", "application/grpc-web-textx", "application/grpc-web-text+json", ";", "application/json; charset=utf-8", "APPLICATION/GRPC", "application/x-rev", "application/grpc+rev", "application/grpc-web+rev"}
+	accepts := []string{"", "application/json", "google.api.HttpBody", "*/*", "junk", ";q=", "a/b;q=1.5", ",", "application/protobuf;q=0", "application/x-rev"}
 	aencs := []string{"", "gzip", "identity", "*", "application/json", "junk"}
-	cencs := []string{"", "gzip", "identity", "br"}
-	gencs := []string{"", "gzip", "identity", "br", "gzip,identity"}
+	cencs := []string{"", "gzip", "identity", "br", "x-rot"}
+	gencs := []string{"", "gzip", "identity", "br", "gzip,identity", "x-rot"}
 	timeouts := []string{"", "1S", "0n", "99999999H", "1", "S", "1x", "-1S", "123456789S", " 1S", "1S ", "00000001n", "1m"}
 	bd := c09Bodies(ts)
 	validPB := bd["varints"][len(bd["varints"])-2]
@@ -488,6 +500,13 @@ func c09Cases(ts *tSchema, thorough bool) []c09Case {
 			out = append(out, c09Case{Entry: "http", Mux: "complex", Verb: "POST", Path: p, BodyHex: hx(j), CL: -2})
 		}
 	}
+	// body-less WebSocket rules: the request message comes from the URL, no frame is consumed -
+	// a handler that receives until the stream ends must still get an end
+	for _, p := range []string{"/ws/nobody/unary/x", "/ws/nobody/cs/x", "/ws/nobody/ss/x", "/ws/nobody/bidi/x"} {
+		for _, f := range [][]byte{nil, wsClose(1000, ""), wsText([]byte(`{"s":"y"}`)), append(wsText([]byte(`{}`)), wsClose(1000, "")...)} {
+			out = append(out, c09Case{Entry: "ws", Mux: "t", Verb: "GET", Path: p, BodyHex: hx(f)})
+		}
+	}
 	for _, f := range bd["ws"] {
 		for _, p := range []string{"/ws/unary", "/ws/cs", "/ws/ss", "/ws/bidi"} {
 			out = append(out, c09Case{Entry: "ws", Mux: "t", Verb: "GET", Path: p, BodyHex: hx(f)})
@@ -527,7 +546,7 @@ func c09Cases(ts *tSchema, thorough bool) []c09Case {
 
 func runC09(c *Ctx) {
 	r := c.Run
-	r.Rule("entry path{transcoding, gRPC, gRPC-web(-text), WebSocket upgrade} × mux options{plain, interceptors, stats handler, both} × (all paths of length <= 6 (thorough 7) over {/ : a * . { space é 0x80} incl. behind '/a', '/a/a…:a'; token-limit paths; every query key of depth <= 3 through scalar/message/repeated/map/oneof/wrapper/unknown fields × 7 values; header alphabets for Content-Type × Accept, Accept-Encoding × Content-Encoding × gzip junk, Grpc-Encoding × grpc-timeout, Upgrade variants; bodies: every frame header flag{0,1,2,0x80,0xff} × length{0,1,3,5,L,L+1,2^32-1} × payload{valid,truncated,junk,empty,gzip,cut gzip}, all 1..10-byte varint prefixes, JSON brace streams and deep nesting, WebSocket protocol violations; handler codes incl. out of range); reply path: gzip-negotiated gRPC / gRPC-web calls (unary, server-streaming) whose incompressible reply takes every size 0..1200 (thorough 9000), ascending then descending on one mux; distinct = (entry, mux, outcome class, input family)")
+	r.Rule("entry path{transcoding, gRPC, gRPC-web(-text), WebSocket upgrade} × mux options{plain, interceptors, stats handler, both; a custom non-stream codec and a custom compressor registered on all} × (all paths of length <= 6 (thorough 7) over {/ : a * . { space é 0x80} incl. behind '/a', '/a/a…:a'; token-limit paths; every query key of depth <= 3 through scalar/message/repeated/map/oneof/wrapper/unknown fields × 7 values; header alphabets for Content-Type × Accept, Accept-Encoding × Content-Encoding × gzip junk, Grpc-Encoding × grpc-timeout, Upgrade variants; bodies: every frame header flag{0,1,2,0x80,0xff} × length{0,1,3,5,L,L+1,2^32-1} × payload{valid,truncated,junk,empty,gzip,cut gzip}, all 1..10-byte varint prefixes, JSON brace streams and deep nesting, WebSocket protocol violations; body-less WebSocket rules on all four call shapes with a handler that keeps receiving; handler codes incl. out of range); reply path: gzip-negotiated gRPC / gRPC-web calls (unary, server-streaming) whose incompressible reply takes every size 0..1200 (thorough 9000), ascending then descending on one mux; distinct = (entry, mux, outcome class, input family)")
 	r.Assume("small-scope hypothesis: 'for all byte strings' is covered up to the stated lengths and alphabets", "a case that does not return within 120 s is reported as a hang (the normal cost of a case is microseconds)")
 	ts, err := newTSchema()
 	if err != nil {
